@@ -9,7 +9,7 @@ def build(tier, seed):
         cands = [0, 1, 2, 30, 66, 67, 68, 100, 149, 150, 151, 200, 300, 400, 500, 598, 600]
         nv = 3
     else:
-        cands = list(range(0, 700))
+        cands = list(range(0, 230)) + list(range(230, 700, 4))
         nv = 4
     src = source(cands=cands, nv=nv)
     for v1 in range(nv):
@@ -20,7 +20,7 @@ def build(tier, seed):
                     "timeout": 900 if tier == "quick" else 6000, "per_path_timeout": 120.0,
                     "bound": "declaration %d dies after file-system step k in 0..15 (exists, load, remove, makedirs, open-truncate, 4 writes, "
                              "close, reload); a dying write leaves its first c bytes, c in %s; then each of %d declarations is defined in a "
-                             "fresh process" % (v1, "every position 0..699" if tier != "quick" else cands, nv),
+                             "fresh process" % (v1, "every position 0..229 and every 4th up to 699" if tier != "quick" else cands, nv),
                     "assertion": "the later definition succeeds and behaves like its own declaration compiled with generators off",
                     "decl_text": "variants of class Double sharing one cache file"})
     for pre in (False, True):
